@@ -15,7 +15,7 @@ type case =
 let id = "C11"
 let rule = "random byte strings x random chunkings through the three digests; DUMP payloads of random type/value; payloads with every version \
 0..12, 255..258, 65535 and a correct CRC; for each generated payload / RDB image ALL single-byte substitutions (every position x 255 values) and \
-all trailer truncations, plus whole-trailer damage of RDB images (zeroed, all ones, another file's checksum, reversed; with a flipped content bit) (RDB image sweeps: content bytes < 0x40 and replacement values 0x80/0x81/0xc3 skipped, because they make the parser allocate GiB-sized buffers); non-trivial = non-empty data; distinct by wire line"
+all trailer truncations (RDB images read whole or through sources delivering at most 1, 3, 5, 7, 16 or 4096 bytes per Read), plus whole-trailer damage of RDB images (zeroed, all ones, another file's checksum, reversed; with a flipped content bit) (RDB image sweeps: content bytes < 0x40 and replacement values 0x80/0x81/0xc3 skipped, because they make the parser allocate GiB-sized buffers); non-trivial = non-empty data; distinct by wire line"
 
 let n_of_bytes_crc s = Model.ext_digest (bytes_of_string s)
 let le64 (x : Model.n) = string_of_bytes (Model.le_enc (nat_of_int 8) x)
@@ -78,15 +78,18 @@ let corpus = [ Chk ("\x00\x01a", 262); Chk ("\x00\x01a", 256); Chk ("\x00\x01a",
 
 let payload_of data ver = string_of_bytes (Model.payload_fast (bytes_of_string data) (n_of_int ver))
 
+(* how the loader's source delivers the image: whole, or in short reads (a bufio / network source) - fixed per image *)
+let rdb_chunk (img : string) = List.nth [ 0; 1; 3; 7; 16; 4096 ] (Hashtbl.hash img mod 6)
+
 let to_line = function
   | Digest (d, ch) -> Printf.sprintf "digest %s %s" (hex_of_string d) (if ch = [] then "0" else String.concat "," (List.map string_of_int ch))
   | Dump (t, v) -> Printf.sprintf "dump %d %s" t (hex_of_string v)
   | Chk (d, v) -> "chk " ^ hex_of_string (payload_of d v)
   | ChkRaw s -> "chk " ^ hex_of_string s
   | Sweep (d, v) -> "sweep " ^ hex_of_string (payload_of d v)
-  | Rdb (img, _) -> "rdb " ^ hex_of_string img
+  | Rdb (img, _) -> Printf.sprintf "rdb %s %d" (hex_of_string img) (rdb_chunk img)
   | RdbSweep img -> "rdbsweep " ^ hex_of_string img
-  | RdbBad (_, img) -> "rdb " ^ hex_of_string img
+  | RdbBad (_, img) -> Printf.sprintf "rdb %s %d" (hex_of_string img) (rdb_chunk img)
 
 let show = function
   | Digest (d, ch) -> Printf.sprintf "digest of %d bytes written in chunks [%s]" (String.length d) (String.concat ";" (List.map string_of_int ch))
@@ -94,9 +97,9 @@ let show = function
   | Chk (d, v) -> Printf.sprintf "payload(%s, version %d, correct CRC)" (show_bytes d) v
   | ChkRaw s -> Printf.sprintf "raw payload of %d bytes" (String.length s)
   | Sweep (d, v) -> Printf.sprintf "all substitutions/truncations of payload(%d data bytes, version %d)" (String.length d) v
-  | Rdb (img, n) -> Printf.sprintf "RDB image of %d bytes, %d keys" (String.length img) n
+  | Rdb (img, n) -> Printf.sprintf "RDB image of %d bytes, %d keys, read from a source delivering at most %d bytes per Read (0 = everything)" (String.length img) n (rdb_chunk img)
   | RdbSweep img -> Printf.sprintf "all substitutions/trailer truncations of an RDB image of %d bytes" (String.length img)
-  | RdbBad (d, img) -> Printf.sprintf "RDB image of %d bytes, %s" (String.length img) d
+  | RdbBad (d, img) -> Printf.sprintf "RDB image of %d bytes, %s, read in pieces of at most %d bytes (0 = whole)" (String.length img) d (rdb_chunk img)
 
 let classify = function
   | Digest (d, ch) -> if d = "" then None else Some (if List.length ch > 1 then "digest:chunked" else "digest:whole")
